@@ -237,6 +237,7 @@ namespace photon
         LS_TH_DONE = 16, LS_STANDBY_PUSH = 17, LS_STANDBY_DRAIN = 18,
         LS_MUTEX_HANDOFF = 20, LS_SEM_ADD = 21, LS_SEM_SUB = 22, LS_RWLOCK_STATE = 23,
         LS_SEM_RESUME = 24,
+        LS_TH_DISPOSE = 25, LS_MUTEX_CAS = 26,
     };
     extern "C" __attribute__((weak)) void (*photon_verif_ls_cb)(int id, const void* obj, const void* l1, const void* l2);
     // (id, object accessed, the lock(s) that the code's own rules say protect this access)
